@@ -254,6 +254,21 @@ CHECKS["C12"] = dict(
     design="§7 C12",
 )
 
+CHECKS["C17"] = dict(
+    text=("Lean: model of the by / level resolution (Model/Facade.lean: resolveItem, resolveAll, resolve); key_columns_not_aggregated, non_key_columns_kept, "
+          "value_columns_sublist, keys_length (columns used as keys are never value columns, all others are, in frame order; one key per item); "
+          "selection_honoured; on the facts extracted from api.py on every run: every_method_passes_selected_values (each facade method, and rolling, hands "
+          "_values_to_group - or nothing for size / cumcount - to the engine), delegation_same_name, source_facts (__iter__ indexes with .iloc, value columns "
+          "exclude key columns, [] builds the column / value_columns selection); iteration by position: iter_labels_once, iter_rows_exact (exactly the rows of "
+          "the group, in row order, whatever the index labels) and loc_is_not_iloc. Correspondence: the Lean resolve model vs the implementation's value "
+          "columns / key count / ngroups; every facade method vs the core engine on the selected columns (identical labels, columns, numbers) and vs pandas "
+          "groupby for the operations pandas offers, on frames / Series with default, shuffled, string, duplicated and MultiIndex indexes, keys as columns, "
+          "arrays, Series, level names / numbers, index name and mixtures, with and without [] selection; cumcount and iteration checked structurally."),
+    note="Agreement with pandas is established by the differential runs only (pandas is not modelled). median is compared with the engine, not with pandas (not in the property's list).",
+    technique="Lean 4 proof (resolution model by list induction; generated delegation table and source facts by decide; positional iteration theorem) + differential runs against the core engine and pandas",
+    design="§7 C17",
+)
+
 NOT_APPLICABLE: list[dict] = []
 
 
